@@ -29,6 +29,9 @@ type Case struct {
 	Cfg    *gen.Tree `json:"cfg"`
 	VarExp bool      `json:"varexp,omitempty"`
 	Policy int       `json:"policy,omitempty"` // global list policy given to Unpack: 0 none, 1 replace, 2 append, 3 prepend
+	// dynamic types of the typed values that interfaces of the pre-filled value hold: the interface value
+	// {"keys":["dyn"],"u":k,"elems":[v]} holds the value v of the type Dyn[k] (see iface_test.go)
+	Dyn []*gen.TD `json:"dyn,omitempty"`
 }
 
 func lastSeg(path string) string { return path[strings.LastIndex(path, ".")+1:] }
@@ -99,6 +102,7 @@ type typeFacts struct {
 	ptr, slice, array, mapk, inline, dur, named bool
 	blankEq                                     bool // a tag spelt with blanks around '='
 	squash                                      bool // an inline field spelt `squash`
+	ifaceField, ifaceList, ifaceMap             bool // interface{} as field type, as element type of a list, of a map
 }
 
 func hasValidators(td *gen.TD) bool {
@@ -160,6 +164,10 @@ func (f *typeFacts) scan(td *gen.TD) {
 				f.ptrCollElems = true
 			}
 		}
+		if sh.Elem.Kind == "iface" {
+			f.ifaceList = f.ifaceList || sh.Kind != "map"
+			f.ifaceMap = f.ifaceMap || sh.Kind == "map"
+		}
 		f.scan(sh.Elem)
 	case "struct":
 		for i := range sh.Fields {
@@ -179,6 +187,9 @@ func (f *typeFacts) scan(td *gen.TD) {
 			}
 			if strings.Contains(fd.Validate, " =") || strings.Contains(fd.Validate, "= ") {
 				f.blankEq = true
+			}
+			if fd.T.Kind == "iface" {
+				f.ifaceField = true
 			}
 			if tags := parseTags(fd.Validate); len(tags) > 0 {
 				f.validators += len(tags)
@@ -298,6 +309,9 @@ func showEvals(es []*eval) string {
 func runCase(c Case, r *runlog.R) error {
 	var facts typeFacts
 	facts.scan(c.T)
+	for _, d := range c.Dyn {
+		facts.scan(d)
+	}
 	// D30 needs a non-nil pointer to a collection in the pre-filled value
 	facts.ptrToColl = facts.ptrToColl && nonNilPtrToColl(c.T, c.Pre)
 	// D23 needs a non-nil pointer in a tagged pointer field of the pre-filled value
@@ -330,11 +344,33 @@ func runCase(c Case, r *runlog.R) error {
 		return nil
 	}
 
-	twinTD := twinOf(c.T)
-	twin := twinTD.New(c.Pre)
+	reg, unambiguous := c.registry()
+	if !unambiguous {
+		// two dynamic types of interface-held values share a Go type but not their validators
+		r.Class("discarded: ambiguous dynamic types")
+		r.Discard()
+		return nil
+	}
+	if len(c.Dyn) > 0 && open("N-C04-1") {
+		// class of N-C04-1: a setting for an interface that holds a struct, an array or a nil map directly (not through a
+		// pointer) makes Unpack panic (it merges into the unaddressable value)
+		w0 := &walker{root: c.Cfg, varexp: c.VarExp, dyn: reg}
+		w0.walk(c.T, c.newValue(true).Elem(), pos{cfg: c.Cfg})
+		if w0.unaddr {
+			r.Excluded("N-C04-1")
+			r.Discard()
+			return nil
+		}
+	}
+
+	twin := c.newValue(true)
 	realT := c.T.Type()
 	describe := func() string {
-		return fmt.Sprintf("\n type    %v\n prefill %s\n config  %s (VarExp %v)", realT, gen.Show(twinTD.New(c.Pre).Elem()), showTree(c.Cfg), c.VarExp)
+		pol := ""
+		if c.Policy != 0 {
+			pol = ", global list policy " + []string{"", "replace", "append", "prepend"}[c.Policy]
+		}
+		return fmt.Sprintf("\n type    %v\n prefill %s\n config  %s (VarExp %v%s)", realT, showV(c.newValue(false).Elem()), showTree(c.Cfg), c.VarExp, pol)
 	}
 
 	// R: what a validation-free Unpack produces
@@ -348,10 +384,16 @@ func runCase(c Case, r *runlog.R) error {
 		return nil
 	}
 
-	w := &walker{root: c.Cfg, varexp: c.VarExp}
+	w := &walker{root: c.Cfg, varexp: c.VarExp, dyn: reg}
 	w.walk(c.T, twin.Elem(), pos{cfg: c.Cfg})
 	if w.d48 && open("D48") {
 		r.Excluded("D48")
+		r.Discard()
+		return nil
+	}
+	if w.d59 && open("D59") {
+		// class of D59: Validate() of a value an interface holds is not called when the configuration does not mention it
+		r.Excluded("D59")
 		r.Discard()
 		return nil
 	}
@@ -367,7 +409,7 @@ func runCase(c Case, r *runlog.R) error {
 		}
 	}
 
-	real := c.T.New(c.Pre)
+	real := c.newValue(false)
 	uerr, panicked := safely(func() error { return cfg.Unpack(real.Interface(), unpackOpts...) })
 	if panicked {
 		return fmt.Errorf("Unpack panicked: %v%s", uerr, describe())
@@ -376,21 +418,21 @@ func runCase(c Case, r *runlog.R) error {
 	switch {
 	case uerr == nil:
 		if len(strict) > 0 {
-			return fmt.Errorf("Unpack returned nil although the result breaks a validator: %s%s\n result  %s", showEvals(strict), describe(), gen.Show(real.Elem()))
+			return fmt.Errorf("Unpack returned nil although the result breaks a validator: %s%s\n result  %s", showEvals(strict), describe(), showV(real.Elem()))
 		}
 		// independently of the twin: walk the result itself
-		w2 := &walker{root: c.Cfg, varexp: c.VarExp}
+		w2 := &walker{root: c.Cfg, varexp: c.VarExp, dyn: reg}
 		w2.walk(c.T, real.Elem(), pos{cfg: c.Cfg})
 		for i := range w2.evals {
 			if e := &w2.evals[i]; !e.ok && !e.soft {
-				return fmt.Errorf("Unpack returned nil but the returned value breaks %s%s\n result  %s", e, describe(), gen.Show(real.Elem()))
+				return fmt.Errorf("Unpack returned nil but the returned value breaks %s%s\n result  %s", e, describe(), showV(real.Elem()))
 			}
 		}
 		if !same(real.Elem(), twin.Elem()) {
-			return fmt.Errorf("validators altered the result%s\n with validators    %s\n without validators %s", describe(), gen.Show(real.Elem()), gen.Show(twin.Elem()))
+			return fmt.Errorf("validators altered the result%s\n with validators    %s\n without validators %s", describe(), showV(real.Elem()), showV(twin.Elem()))
 		}
 	case len(strict) == 0 && len(soft) == 0:
-		return fmt.Errorf("every validator accepts the result of a validation-free Unpack, but Unpack failed: %v%s\n expected %s", uerr, describe(), gen.Show(twin.Elem()))
+		return fmt.Errorf("every validator accepts the result of a validation-free Unpack, but Unpack failed: %v%s\n expected %s", uerr, describe(), showV(twin.Elem()))
 	default:
 		// the error has to name a rejected field or a field enclosing it. Under append/prepend/replace an element's
 		// position in the result differs from the index of the setting it came from (which is what the error
@@ -459,6 +501,7 @@ func runCase(c Case, r *runlog.R) error {
 	}
 	nt := false
 	var fromDefault, fromInit, viaPtr, inColl, inInline, byMethod, byTag, partial, partialInit bool
+	var viaIface, ifaceMethod, ifaceMethodDflt, ifaceTag, ifaceTagDflt, ifaceCfg bool
 	onInline := map[string]bool{}
 	params := map[string]bool{}
 	for _, e := range deciding {
@@ -477,6 +520,17 @@ func runCase(c Case, r *runlog.R) error {
 				fromInit = true
 			} else {
 				fromDefault = true
+			}
+		}
+		if e.viaIface {
+			viaIface = true
+			ifaceCfg = ifaceCfg || e.fromCfg
+			if e.what == "Validate()" {
+				ifaceMethod = true
+				ifaceMethodDflt = ifaceMethodDflt || (e.ifaceDirect && !e.fromCfg)
+			} else {
+				ifaceTag = true
+				ifaceTagDflt = ifaceTagDflt || !e.fromCfg
 			}
 		}
 		viaPtr = viaPtr || e.viaPtr
@@ -516,6 +570,12 @@ func runCase(c Case, r *runlog.R) error {
 		r.ClassIf(byTag, "decided by a tag")
 		r.ClassIf(partial, "decided by an unmentioned element of a partly configured collection")
 		r.ClassIf(partialInit, "decided by an unmentioned InitDefaults element of a partly configured collection")
+		r.ClassIf(viaIface, "decided through an interface")
+		r.ClassIf(ifaceMethod, "decided through an interface by Validate()")
+		r.ClassIf(ifaceMethodDflt, "decided by Validate() of a value an interface holds directly, not mentioned by the configuration")
+		r.ClassIf(ifaceTag, "decided through an interface by a tag")
+		r.ClassIf(ifaceTagDflt, "decided through an interface by a tag, value not mentioned by the configuration")
+		r.ClassIf(ifaceCfg, "decided through an interface, setting merged into the held value")
 		for _, k := range []string{"slice", "array", "map"} {
 			r.ClassIf(onInline[k], "decided by a tag on an inline "+k)
 		}
@@ -551,6 +611,11 @@ func runCase(c Case, r *runlog.R) error {
 	}
 	r.ClassIf(facts.blankEq, "type: tag spelt with blanks around '='")
 	r.ClassIf(facts.squash, "type: inline field spelt squash")
+	r.ClassIf(facts.ifaceField, "type: interface{} field")
+	r.ClassIf(facts.ifaceList, "type: list of interface{}")
+	r.ClassIf(facts.ifaceMap, "type: map[string]interface{}")
+	r.ClassIf(len(c.Dyn) > 0, "prefill: typed value held by an interface")
+	r.ClassIf(w.unknown, "result: an interface holds a value of a type the case does not describe (not walked)")
 	r.ClassIf(facts.dur, "type: duration")
 	for _, k := range catKinds {
 		r.ClassIf(facts.cats[k], "type: "+k)
